@@ -3,6 +3,7 @@
   and the nesting invariant of the `waiting_for`/`depth` state.
 -/
 import Genshi.Lemmas.SanTotal
+import Genshi.Lemmas.SanRefs
 import Genshi.Lemmas.Core
 namespace Genshi.San
 open Genshi.Gen
@@ -12,15 +13,19 @@ open Genshi.Gen
 /-- what an emitted attribute went through -/
 structure AttrFacts (cfg : Cfg) (a b : QName × Str) : Prop where
   name : b.1 = a.1
+  /-- the emitted value is the fully decoded input value, or the joined declarations for `style` -/
+  value : stripRefs a.2 = .ok b.2 ∨ (cfg.uriAttrs.contains a.1.text = false ∧ (a.1.text == styleWord) = true)
+  /-- reference decoding leaves the emitted value unchanged -/
+  stable : stripentities b.2 = .ok b.2
   safe : cfg.safeAttrs.contains a.1.text = true
   uri : cfg.uriAttrs.contains a.1.text = true → isSafeUri cfg b.2 = true
   style : cfg.uriAttrs.contains a.1.text = false → (a.1.text == styleWord) = true →
-    ∃ v decls, stripentities a.2 = .ok v ∧ sanitizeCss cfg v = .ok decls ∧ decls ≠ [] ∧
+    ∃ v decls, stripRefs a.2 = .ok v ∧ sanitizeCss cfg v = .ok decls ∧ decls ≠ [] ∧
       b.2 = Genshi.Str.join declSep decls
 
 theorem sanAttr_some {cfg : Cfg} {a b : QName × Str} (h : sanAttr cfg a = .ok (some b)) :
     AttrFacts cfg a b := by
-  obtain ⟨v, hv⟩ := stripentities_ok a.2
+  obtain ⟨v, hv⟩ := stripRefs_ok a.2
   unfold sanAttr at h
   simp only [hv, ok_bind] at h
   by_cases h1 : cfg.safeAttrs.contains a.1.text = true
@@ -30,22 +35,28 @@ theorem sanAttr_some {cfg : Cfg} {a b : QName × Str} (h : sanAttr cfg a = .ok (
       by_cases h3 : isSafeUri cfg v = true
       · simp [h3] at h
         subst h
-        exact ⟨rfl, h1, fun _ => h3, fun hf => by rw [h2] at hf; cases hf⟩
+        exact ⟨rfl, Or.inl hv, stripRefs_fixed hv, h1, fun _ => h3, fun hf => by rw [h2] at hf; cases hf⟩
       · simp [h3] at h
     · simp only [h2, Bool.false_eq_true, ↓reduceIte] at h
       by_cases h3 : (a.1.text == styleWord) = true
       · simp only [h3, ↓reduceIte] at h
         obtain ⟨d, hd⟩ := sanitizeCss_ok cfg v
+        obtain ⟨bk, hbk⟩ := stripentities_ok (Genshi.Str.join declSep d)
         simp only [hd, ok_bind, pure_eq_ok] at h
         by_cases h4 : d.isEmpty = true
         · simp [h4] at h
-        · simp [h4] at h
-          subst h
-          refine ⟨rfl, h1, fun hf => absurd hf h2, fun _ _ => ⟨v, d, hv, hd, ?_, rfl⟩⟩
-          intro h0; simp [h0] at h4
+        · simp only [h4, Bool.false_eq_true, ↓reduceIte, hbk, ok_bind, pure_eq_ok] at h
+          by_cases h5 : bk = Genshi.Str.join declSep d
+          · simp [h5] at h
+            subst h
+            refine ⟨rfl, Or.inr ⟨by simpa using h2, h3⟩, ?_, h1, fun hf => absurd hf h2,
+              fun _ _ => ⟨v, d, hv, hd, ?_, rfl⟩⟩
+            · rw [h5] at hbk; exact hbk
+            · intro h0; simp [h0] at h4
+          · simp [h5] at h
       · simp only [h3, Bool.false_eq_true, ↓reduceIte, pure_eq_ok] at h
         simp at h; subst h
-        exact ⟨rfl, h1, fun hf => absurd hf h2, fun _ hf => absurd hf h3⟩
+        exact ⟨rfl, Or.inl hv, stripRefs_fixed hv, h1, fun hf => absurd hf h2, fun _ hf => absurd hf h3⟩
   · simp only [h1, Bool.not_false, ↓reduceIte, pure_eq_ok] at h
     simp at h
 
@@ -115,11 +126,16 @@ theorem step_emits {cfg : Cfg} {st : St} {e : Event} {r : St × Stream} (h : ste
     obtain ⟨hw, rfl⟩ := hx
     exact .other hw (by simp) (by simp)
   | pi t d =>
-    simp [step] at h; subst h
-    intro x hx
-    simp at hx
-    obtain ⟨hw, rfl⟩ := hx
-    exact .other hw (by simp) (by simp)
+    unfold step at h
+    by_cases hgt : (List.contains t '>' || List.contains d '>') = true
+    · simp only [hgt, ↓reduceIte, pure_eq_ok, Except.ok.injEq] at h
+      subst h; simp
+    · simp only [hgt, Bool.false_eq_true, ↓reduceIte, pure_eq_ok, Except.ok.injEq] at h
+      subst h
+      intro x hx
+      simp at hx
+      obtain ⟨hw, rfl⟩ := hx
+      exact .other hw (by simp) (by simp)
   | doctype n p s =>
     simp [step] at h; subst h
     intro x hx
